@@ -179,14 +179,13 @@ impl Gen {
             25..=26 => {
                 let w = self.rng.gen_range(1..=2);
                 let h = self.rng.gen_range(1..=2);
-                // An array formula never covers a cell that an array formula reads (A1:B2, B1:C1, E5:F6): an array
-                // over its own input has no stable value, and an array that reads a member of another array is
-                // evaluated wrongly once (finding C07|second-evaluation-differs|array-reads-array, reported by the
-                // Recalc family); either would surface here under the signature of whatever operation comes next.
-                let overlaps = |r1: i32, c1: i32, r2: i32, c2: i32| !(r + h - 1 < r1 || r > r2 || c + w - 1 < c1 || c > c2);
-                if overlaps(1, 1, 2, 3) || overlaps(5, 5, 6, 6) {
-                    return json!({"op": "input", "s": s, "r": r, "c": c, "text": *self.pick(&["=SUM(A1:B2)", "7", "=E5*2"])});
-                }
+                // Array formulas live in rows 7-8, outside every range that the generated formulas read (A1:B2,
+                // B1:C1, A1:C3, A1:D4, B1:F6, E5:F6): an array over its own input has no stable value, an array that
+                // reads a member of another array is evaluated wrongly once, and a cycle that runs through an array
+                // member is detected in some evaluations and not in others (findings C07|..|array-reads-array and
+                // C05|..|count-on-cycle, reported by the Recalc family). Any of these would surface here under the
+                // signature of whatever operation happens to come next.
+                let r = 7 + (r % 2);
                 let texts: Vec<&str> = vec!["={1,2;3,4}", "=A1:B2*2", "=SUM(A1:A2)", "=B1:C1+1", "=E5:F6*2"];
                 json!({"op": "array", "s": s, "r": r, "c": c, "w": w, "h": h, "text": *self.pick(&texts)})
             }
